@@ -257,3 +257,93 @@ func verifWRunScenario(id int, seed uint64) map[string]interface{} {
 		"low_height": lowHeight, "high_height": highHeight, "raise_ms_after_start": raiseAt - t0, "events": evs, "forwarded": fw, "count_requests": countReqs, "page_requests": pageReqs,
 		"mon": mon, "ms": time.Now().UnixMilli() - t0}
 }
+
+// ------------------------------------------------------------------ _fetchHeight on its own: gate, request, hand-over
+// (the model's fetch_height_tick): disabled => no request and nothing sent; enabled => every successful request is handed
+// to the event loop, also when the height has not changed; a failing request ends on errC.
+func verifWFetchHeightCase(id int, enabled bool, ans *int32) map[string]interface{} {
+	w := &Watcher{chainIndex: &ChainIndex{FromGroup: 0, ToGroup: 0}, blockPollerEnabled: &atomic.Bool{}, pollIntervalMs: 2}
+	if enabled {
+		w.EnableBlockPoller()
+	}
+	var calls int32
+	get := func() (*int32, error) {
+		atomic.AddInt32(&calls, 1)
+		if ans == nil {
+			return nil, fmt.Errorf("verif: injected chain-info error")
+		}
+		v := *ans
+		return &v, nil
+	}
+	errC := make(chan error)
+	heightC := make(chan int32)
+	ctx, cancel := context.WithCancel(context.Background())
+	defer cancel()
+	pan := make(chan string, 1)
+	go func() {
+		defer verifWRecover(pan)
+		w._fetchHeight(ctx, zap.NewNop(), get, errC, heightC)
+	}()
+	res := "nothing"
+	ticks := 0
+	wrong := false
+	want := 3 // the same height three times: it must be sent every time
+	wait := 5 * time.Second
+	if !enabled {
+		wait = 80 * time.Millisecond
+	}
+loop:
+	for ticks < want {
+		select {
+		case hgt := <-heightC:
+			ticks++
+			res = "tick"
+			if ans == nil || hgt != *ans {
+				wrong = true
+			}
+		case <-errC:
+			res = "fatal"
+			break loop
+		case p := <-pan:
+			res = "panic:" + p
+			break loop
+		case <-time.After(wait):
+			break loop
+		}
+	}
+	mon := []string{}
+	desc := fmt.Sprintf("_fetchHeight with the block poller enabled=%v and a chain-info answer %v", enabled, func() interface{} {
+		if ans == nil {
+			return "error"
+		}
+		return *ans
+	}())
+	if enabled && ans != nil && (ticks < want || wrong) {
+		mon = append(mon, "C09|height-not-handed-over|"+desc+fmt.Sprintf(": %d of %d polled heights reached the event loop within 5 s each (the height is unchanged between polls)", ticks, want))
+	}
+	if enabled && ans == nil && res != "fatal" {
+		mon = append(mon, "C09|api-error-outcome|"+desc+": outcome "+res)
+	}
+	if len(res) > 5 && res[:5] == "panic" {
+		mon = append(mon, "C09|panic|"+desc+": "+res)
+	}
+	var a interface{}
+	if ans != nil {
+		a = *ans
+	}
+	return map[string]interface{}{"k": "fh", "id": id, "enabled": enabled, "ans": a, "res": res, "ticks": ticks, "calls": atomic.LoadInt32(&calls), "mon": mon}
+}
+
+func verifWFetchHeightRows(out *verifWOut) {
+	id := 0
+	for rep := 0; rep < 3; rep++ {
+		for _, en := range []bool{false, true} {
+			for _, a := range []*int32{nil, verifWI32(0), verifWI32(7), verifWI32(2147483647)} {
+				out.emit(verifWFetchHeightCase(id, en, a))
+				id++
+			}
+		}
+	}
+}
+
+func verifWI32(v int32) *int32 { return &v }
